@@ -158,8 +158,8 @@ def _cfg_wrapper(tier):
         for unique in (False, True):
             for weights in (False, True):
                 out.append(dict(n=3, nops=1, partial=partial, ignore_partial=ignore, unique=unique, weights=weights, overrides=True))
-                if not weights:
-                    out.append(dict(n=3, nops=2, partial=partial, ignore_partial=ignore, unique=unique, weights=False, overrides=False))
+                if not weights or not partial:
+                    out.append(dict(n=3, nops=2, partial=partial, ignore_partial=ignore, unique=unique, weights=weights, overrides=False))
                 if tier == "thorough":
                     out.append(dict(n=3, nops=2, partial=partial, ignore_partial=ignore, unique=unique, weights=weights, overrides=True))
                     if not weights:
